@@ -68,7 +68,7 @@ def work(job):
         con = E.contracts[key]
         thorough = tier == "thorough"
         res, obs = V.verify_contract(E, con, thorough=thorough)
-        fi = E.repo.get(key)
+        fi = E.repo.get(con.body_key or key)
         out.update(
             paths=res.paths,
             paths_by_outcome=res.paths_by_outcome,
